@@ -123,7 +123,17 @@ def run_seq(ctx, n):
                 if op == "read":
                     exp_after = now + auto
                     if not IMIN <= exp_after <= IMAX:
-                        continue  # the auto-advance would leave the range: not driven
+                        # the auto-advance would leave the range: the read is refused, the clock stays where it is, and everything after it still completes
+                        try:
+                            r = call_completing(ctx, c.get_current_instant, "get_current_instant (auto-advance leaves the range)", case)
+                            trace.append(["read-overflow-returned", ns_of(r)])
+                            ctx.V("C19:read-past-range-returned", f"a read whose auto-advance ({auto}) takes the clock from {now} out of the Instant range returned {ns_of(r)} instead of raising", case, ns_of(r), now)
+                            break
+                        except Hung:
+                            raise
+                        except (OverflowError, ValueError) as e:
+                            ctx.exc(e); trace.append(["read-overflow-raised"]); ctx.key(("read-overflow", (auto > 0) - (auto < 0)))
+                        continue
                     r = ns_of(call_completing(ctx, c.get_current_instant, "get_current_instant", case))
                     trace.append(["read", r])
                     if r != now:
